@@ -1,0 +1,103 @@
+//! Verification hooks: an in-memory event log, compiled only with `--cfg swiftness_verif`.
+//!
+//! Every event is one JSON object (one line). Each `emit` consumes one unit of *fuel* when a
+//! fuel limit is set; running out unwinds with the payload `FUEL_EXHAUSTED`, so that a checker
+//! can bound the work done on behalf of a proof without waiting for a hostile loop to finish.
+extern crate std;
+use starknet_crypto::Felt;
+use std::{cell::RefCell, format, string::String, vec::Vec};
+
+pub const FUEL_EXHAUSTED: &str = "swiftness_verif: fuel exhausted";
+
+std::thread_local! {
+    static BUF: RefCell<Vec<String>> = const { RefCell::new(Vec::new()) };
+    static FUEL: RefCell<Option<u64>> = const { RefCell::new(None) };
+    static USED: RefCell<u64> = const { RefCell::new(0) };
+    static RECORD: RefCell<bool> = const { RefCell::new(true) };
+}
+
+/// Limit the number of events the current thread may still emit (`None`: unlimited).
+pub fn set_fuel(f: Option<u64>) {
+    FUEL.with(|x| *x.borrow_mut() = f);
+    USED.with(|x| *x.borrow_mut() = 0);
+}
+
+/// Number of events emitted since the last `set_fuel`.
+pub fn used() -> u64 {
+    USED.with(|x| *x.borrow())
+}
+
+/// Keep counting (and burning fuel) but stop storing event text.
+pub fn set_record(on: bool) {
+    RECORD.with(|x| *x.borrow_mut() = on);
+}
+
+pub fn tick() {
+    USED.with(|x| *x.borrow_mut() += 1);
+    let out = FUEL.with(|x| {
+        let mut f = x.borrow_mut();
+        match f.as_mut() {
+            Some(0) => true,
+            Some(n) => {
+                *n -= 1;
+                false
+            }
+            None => false,
+        }
+    });
+    if out {
+        std::panic::panic_any(FUEL_EXHAUSTED);
+    }
+}
+
+pub fn take() -> Vec<String> {
+    BUF.with(|b| core::mem::take(&mut *b.borrow_mut()))
+}
+
+pub struct Ev(String);
+
+pub fn ev(name: &str) -> Ev {
+    Ev(format!("{{\"ev\":\"{}\"", name))
+}
+
+impl Ev {
+    pub fn f(mut self, k: &str, v: &Felt) -> Self {
+        self.0.push_str(&format!(",\"{}\":\"{:#x}\"", k, v));
+        self
+    }
+    pub fn fs<'a>(mut self, k: &str, v: impl IntoIterator<Item = &'a Felt>) -> Self {
+        let items: Vec<String> = v.into_iter().map(|x| format!("\"{:#x}\"", x)).collect();
+        self.0.push_str(&format!(",\"{}\":[{}]", k, items.join(",")));
+        self
+    }
+    pub fn u(mut self, k: &str, v: u64) -> Self {
+        self.0.push_str(&format!(",\"{}\":{}", k, v));
+        self
+    }
+    pub fn us(mut self, k: &str, v: &[u64]) -> Self {
+        let items: Vec<String> = v.iter().map(|x| format!("{}", x)).collect();
+        self.0.push_str(&format!(",\"{}\":[{}]", k, items.join(",")));
+        self
+    }
+    pub fn b(mut self, k: &str, v: bool) -> Self {
+        self.0.push_str(&format!(",\"{}\":{}", k, v));
+        self
+    }
+    pub fn s(mut self, k: &str, v: &str) -> Self {
+        self.0.push_str(&format!(",\"{}\":\"{}\"", k, v));
+        self
+    }
+    /// Bytes as a lower-case hex string without prefix.
+    pub fn bytes(mut self, k: &str, v: &[u8]) -> Self {
+        let hex: String = v.iter().map(|b| format!("{:02x}", b)).collect();
+        self.0.push_str(&format!(",\"{}\":\"{}\"", k, hex));
+        self
+    }
+    pub fn emit(mut self) {
+        tick();
+        if RECORD.with(|x| *x.borrow()) {
+            self.0.push('}');
+            BUF.with(|b| b.borrow_mut().push(self.0));
+        }
+    }
+}
